@@ -83,8 +83,9 @@ def c06_sessions(V, tier):
     base = os.path.join(C.BUILD, "ws", "lsphist6-%d" % os.getpid())
     shutil.rmtree(base, ignore_errors=True)
 
-    def run_one(root, script, final):
-        """script: list of (slot, version); final: slot -> version"""
+    def run_one(root, script, final, warm=False):
+        """script: list of (slot, version); final: slot -> version; warm: every handler is asked about every opened document
+        after EVERY notification (answers discarded), so that whatever a handler keeps between requests is populated"""
         uni = H.mk_universe(root)
         vt = H.Versions(uni, table)
         _write_disk(root, uni.paths, {s: vt.text(s, 1) for s in table})     # what is on disk: version 1 of every file
@@ -92,6 +93,7 @@ def c06_sessions(V, tier):
         try:
             srv.initialize(root + "/R")
             ver = {}
+            now = {}
             for slot, v in script:
                 if slot not in ver:
                     ver[slot] = 1
@@ -99,6 +101,9 @@ def c06_sessions(V, tier):
                 else:
                     ver[slot] += 1
                     srv.did_change(uni.paths[slot], vt.text(slot, v), version=ver[slot])
+                now[slot] = vt.r[(slot, v)]
+                if warm:
+                    ask_everything(srv, root, uni, now)
             cur = {s: vt.r[(s, v)] for s, v in final.items()}
             return ask_everything(srv, root, uni, cur)
         finally:
@@ -112,7 +117,7 @@ def c06_sessions(V, tier):
         for f, v in hist:
             final[f] = v
         try:
-            long_lived = run_one(os.path.join(base, "L%d" % n), hist, final)
+            long_lived = run_one(os.path.join(base, "L%d" % n), hist, final, warm=(n % 2 == 0))
             fresh = run_one(os.path.join(base, "F%d" % n), [(f, final[f]) for f in case["okOrder"] if f in final], final)
         except (lsp.ServerDied, lsp.Timeout) as e:
             return {"error": str(e)}
